@@ -14,7 +14,10 @@ import vplib
 from checks.common import verdict
 from kkdrv import EP_NAMES, b2s, canon_rules, mk_key, py_disabled, py_modes_redirect, py_valid
 
-GUIDS = ["%08x-1111-4222-8333-%012x" % (i, i) for i in range(1, 10)]
+# guids as a host may write them: lower / upper / mixed case, braces, not a GUID at all
+GUIDS = ["00000001-1111-4222-8333-000000000001", "00000002-AAAA-4BBB-8CCC-00000000000B", "00000003-aaaa-4BBB-8ccc-00000000000c",
+         "{00000004-1111-4222-8333-000000000004}", "KEY-0005", "00000006-1111-4222-8333-000000000006",
+         "00000007-ABCD-4222-8333-000000000007", "key_8", "00000009-1111-4222-8333-000000000009"]
 MODES = ["enforce", "audit", "disabled", "Enforce", "AUDIT", "Disabled", "foo", "Énforce"]
 BODIES = [
     ("allow", None),
